@@ -57,12 +57,29 @@ epoch_of (inputs const &in, unsigned i)
   return i < in.ep_end[0] ? 0 : 1;
 }
 
+// C13: when >= 0 the result set is abandoned after that many pulls (state destroyed half-way)
+static int g_abandon = -1;
+
 // pull X to exhaustion in every epoch
 static inline void
 drive (std::shared_ptr <op> const &x, U_src const &u, layout &l, inputs const &in, reslog &log, unsigned maxpulls)
 {
   scon sc {l};
   x->state_con (sc);
+  if (g_abandon >= 0)
+    {
+      // pull g_abandon results (or fewer if it runs dry), then walk away
+      u.feed (sc, in.ep_end[0]);
+      for (int p = 0; p < g_abandon; ++p)
+        {
+          auto r = x->next (sc);
+          if (r == nullptr)
+            break;
+          log.add (*r, 0);
+        }
+      x->state_des (sc);
+      return;
+    }
   for (unsigned e = 0; e < VP_E; ++e)
     {
       u.feed (sc, in.ep_end[e]);
@@ -89,6 +106,8 @@ drive (std::shared_ptr <op> const &x, U_src const &u, layout &l, inputs const &i
 static inline void
 check (inputs const &in, denot const *F, reslog const &log, unsigned exp_depth)
 {
+  if (g_abandon >= 0)
+    return;
   unsigned total = 0;
   for (unsigned i = 0; i < in.n; ++i)
     total += F[i].n;
@@ -523,3 +542,19 @@ VP_SCENARIOS (c01_alt_in_alt, N_THREE)
     }
   check (in, F, log, 2);
 }
+
+// ------------------------------------------------------------------ C13: abandonment
+// the same operator graphs, but the result set is abandoned after a pulls (a = 0..4) and torn
+// down; CBMC's memory checks and --memory-leak-check decide (no assertion of the denotation)
+#define C13_PULLS 5
+#define ABANDON(name, base, N)                                          \
+  VP_SCENARIOS (name, (N) * C13_PULLS)                                  \
+  {                                                                     \
+    g_abandon = (int) (k % C13_PULLS);                                  \
+    base##__run (k / C13_PULLS);                                        \
+    g_abandon = -1;                                                     \
+  }
+ABANDON (c13_alt2, c01_alt2, N_ALT2)
+ABANDON (c13_or2, c01_or2, N_ALT2)
+ABANDON (c13_ifelse, c01_ifelse, N_IFELSE)
+ABANDON (c13_alt_in_alt, c01_alt_in_alt, N_THREE)
